@@ -28,8 +28,9 @@ def run(ctx):
     pdir, plans = ctx.tlc_plans(fam, "KeyLock_Gen", "KeyLock_Gen.cfg", num=ctx.q(120, 1500), depth=40)
     binary = ctx.go_build("c02")
     ctx.harness(binary, ["-plans", pdir, "-out", ctx.path("steps.ndjson"), "-stress", ctx.path("stress.ndjson"),
-                         "-seed", ctx.seed, "-rand", ctx.q(120, 2500), "-nstress", ctx.q(10, 150),
-                         "-nprobe", ctx.q(5, 40), "-probepairs", ctx.q(60, 300)],
+                         "-seed", ctx.seed, "-rand", ctx.q(108, 2500), "-nstress", ctx.q(10, 150),
+                         "-nprobe", ctx.q(5, 40), "-probepairs", ctx.q(60, 300),
+                         "-nlong", ctx.q(12, 150), "-nsim", ctx.q(600, 30000)],
                 traces=[ctx.path("steps.ndjson"), ctx.path("stress.ndjson")])
     steps = ctx.load_traces(ctx.path("steps.ndjson"))
     stress = ctx.load_traces(ctx.path("stress.ndjson"))
@@ -46,8 +47,15 @@ def run(ctx):
     ]
     return ctx.finish(
         rule="plans = TLC simulation of KeyLock.tla (4 procs, 3 keys, 2 shards, 3 calls each; only the external "
-             "call/unlock steps are replayed) + seeded random schedules (3..5 procs, 2..4 keys); 10 locker "
-             "variants x shard counts 1,2,3,73",
+             "call/unlock steps are replayed) + seeded random schedules (3..5 procs, 2..4 keys); 23 locker "
+             "variants (interface{} keys as ints, strings, equal numbers of different integer types, unusual "
+             "dynamic kinds incl. nil / typed nil / pointers / structs and remap's Bs / HitGroup types; "
+             "generic lockers over int, string, struct, array, pointer, uint8, Bs and HitGroup key types) x "
+             "shard counts 1,2,3,73; key lists handed over are written over after the call, empty lists are "
+             "nil or empty; long runs (lock/unlock cycles and nested read locks by one goroutine: 255..257, "
+             "65535..65537 as one event); free-running rounds in which all holders of a key unlock at one "
+             "instant while callers are parked behind them and newcomers arrive",
         explanation="after every step the status vector (held/parked/idle) must admit an assignment of "
-                    "already-held keys that is compatible, monotone and justifies every parked caller; "
+                    "already-held keys that is compatible, monotone and justifies every parked caller; a run "
+                    "is issued only where nothing would justify waiting and must go through completely; "
                     "nothing retained and nobody parked at the end")
